@@ -13,12 +13,14 @@
 // payload sizes, timestamp/seqno starts incl. wrap, keyframe positions and
 // dimensions, audio/video, pre-roll macro that moves the sample builder's
 // ring to its end):
-//   perm  every permutation with displacement <= 2 (3 thorough)
-//   dup   every single duplication (original at slot i, copy before slot j)
-//   gap   every choice of one or two packets not written to the recorder,
-//         each either stored in the cache (recoverable) or lost
-//   sr    a sender report at every position (every pair of positions for
-//         audio+video)
+//
+//	perm  every permutation with displacement <= 2 (3 thorough)
+//	dup   every single duplication (original at slot i, copy before slot j)
+//	gap   every choice of one or two packets not written to the recorder,
+//	      each either stored in the cache (recoverable) or lost
+//	sr    a sender report at every position (every pair of positions for
+//	      audio+video)
+//
 // each ending by Close or by the departure of the publisher; thorough adds
 // products of the families over reordered bases.
 package main
@@ -80,6 +82,7 @@ func configs() []*Config {
 		{Name: "opus", A: []int{1, 2, 1200, 1, 2, 1}, ATS0: tsWrapA, ASeq0: 65533},
 		{Name: "vp8+opus", Codec: "vp8", V: []VF{k(0, 2, 1), d(1), d(1, 1)}, A: []int{1, 2, 1200, 1}, AOff: 5, ATS0: tsWrapA, VSeq0: 65533},
 		{Name: "vp8+opus-early-audio", Codec: "vp8", V: []VF{k(0, 1, 1), d(1), d(1)}, A: []int{1, 1, 1, 1}, AOff: -25, VTS0: tsWrapV},
+		{Name: "vp8+opus-2key", Codec: "vp8", V: []VF{k(0, 1, 1), d(1), k(0, 1), d(1)}, A: []int{1, 1, 1, 1}, AOff: 7, VTS0: tsWrapV, ATS0: tsWrapA},
 		{Name: "vp8-dims", Codec: "vp8", V: []VF{k(0, 1), d(1), k(1, 1), d(1), k(1, 1), d(1)}},
 		{Name: "vp8-latekey", Codec: "vp8", V: []VF{d(1), d(1, 1), k(0, 1, 1), d(1)}},
 		{Name: "vp8-pre510", Codec: "vp8", PreN: 256, V: []VF{d(1, 1), d(1, 1, 1), d(1)}},
@@ -194,7 +197,11 @@ func planFor(st *stream, witness bool) plan {
 	case core.Quick() && pre:
 		return plan{permD: 2, gapMax: 2, srPairs: true}
 	case core.Quick():
-		return plan{permD: 2, dupBaseD: 1, gapBaseD: 1, gapMax: 2, srBaseD: 1, srPairs: true}
+		p := plan{permD: 2, dupBaseD: 1, gapBaseD: 1, gapMax: 2, srBaseD: 1, srPairs: true}
+		if st.cfg.hasAudio() && st.cfg.hasVideo() && n <= 8 {
+			p.srBaseD = 2 // sender reports of two tracks interact with arrival jitter
+		}
+		return p
 	case pre:
 		return plan{permD: 3, dupBaseD: 2, gapBaseD: 2, gapMax: 2, srBaseD: 1, srPairs: true}
 	case n <= 8:
@@ -581,6 +588,9 @@ func main() {
 		os.Exit(0)
 	}
 	for _, c := range configs() {
+		if f := os.Getenv("C20_CFG"); f != "" && !strings.Contains(c.Name, f) {
+			continue
+		}
 		st, err := buildStream(c)
 		if err != nil {
 			res.Fault = c.Name + ": " + err.Error()
